@@ -145,11 +145,12 @@ class World(object):
         self.stats = {"steps": 0, "ops": {}, "faults": {}, "cells": set(), "cells_faulted": set(),
                       "state_x_op": set(), "outcomes": {}, "k2_sites": {}, "nontrivial": 0, "kindseq": set(),
                       "fp_errors": 0, "strict_runs": 0, "deepcopy_fallback": 0, "checks": 0, "twin_builds": 0,
-                      "rejected": 0, "runs": 0, "run_class": {}, "ni_checks": 0, "custom_regens": 0, "reused_setting_arrays": 0}
+                      "rejected": 0, "runs": 0, "run_class": {}, "ni_checks": 0, "custom_regens": 0, "reused_setting_arrays": 0, "clean_process_checks": 0}
         self.kinds = []
         self.hit_cell = False
         self.last_fault_party = None
         self.pending_recover = {}   # party -> fault kind awaiting a later successful op
+        self.strict_fp = False
         self.custom = {}            # party -> cache groups filled by an explicit generator call with non-default arguments
         self.last_obs = {}          # party -> {observable: outcome at the end of the previous step}
         self.held = {}              # (party, setting) -> the array object the caller passed last time (it may pass it again)
@@ -237,6 +238,7 @@ class C04(Profile):
         w.stats["run_class"] = {config.get("run_class", "replay"): 1}
         if config.get("strict_fp"):
             w.stats["strict_runs"] = 1
+            w.strict_fp = True
         return w
 
     def close_world(self, world):
@@ -653,6 +655,10 @@ class C04(Profile):
                 why = outcomes_agree(got, ref, rtol)
                 if why:
                     bad[x] = (why, got, ref)
+            if not moved and not bad and (cs + len(pname)) % 48 == 0:
+                v = self._clean_check(world, pname, obj, now, base, kind)
+                if v:
+                    return v
             now["__values__"] = codec.digest(np.asarray(obj.values))
             world.last_obs[pname] = now
             if moved:
@@ -669,6 +675,45 @@ class C04(Profile):
                             what="%s.%s is not what a fresh object with the same values, dt and settings reports: %s"
                                  % (pname, first, why),
                             all_bad=sorted(bad), read_order=obs, subject=got.brief(), twin=ref.brief())
+        return None
+
+    def clean_handler(self, req):
+        """Executed in a grandchild of the clean template process: what a fresh object reports in a process that has
+        seen nothing."""
+        eqsig = self.eqsig
+        ctx = np.errstate(divide="raise", invalid="raise", over="raise") if req.get("strict_fp") else np.errstate(all="ignore")
+        import warnings as _w
+        with _w.catch_warnings():
+            _w.simplefilter("ignore")
+            with ctx:
+                out = {}
+                for x in req["obs"]:
+                    def build():
+                        if req["cls"] == "AccSignal":
+                            return eqsig.AccSignal(np.array(req["values"]), req["dt"], smooth_fa_freqs=np.array(req["freqs"]),
+                                                   response_times=np.array(req["periods"]))
+                        return eqsig.Signal(np.array(req["values"]), req["dt"], smooth_fa_freqs=np.array(req["freqs"]))
+                    out[x] = capture(lambda: getattr(build(), x))
+                return out
+
+    def _clean_check(self, world, pname, obj, now, base, kind):
+        """Sampled: compare what the object reports with a fresh object *in a fresh process*."""
+        from .. import kernel
+        obs = [x for x in _obs_for(obj) if not self._is_custom(world, pname, x)]
+        if not obs or kernel.CLEAN["server"] is None:
+            return None
+        req = {"cls": _cls_name(obj), "values": np.asarray(obj.values), "dt": obj.dt, "freqs": np.asarray(obj.smooth_fa_freqs),
+               "periods": np.asarray(getattr(obj, "response_times", [1.0])), "obs": obs, "strict_fp": bool(world.strict_fp)}
+        ref = kernel.clean_reference(req)
+        world.stats["clean_process_checks"] += 1
+        rtol = self._rtol(obj)
+        for x in obs:
+            why = outcomes_agree(now[x], ref[x], rtol)
+            if why:
+                return dict(base, invariant="derived==fresh-process", observable=x, cls=_cls_name(obj), party=pname,
+                            what="%s.%s is not what a fresh object reports in a process that has executed nothing else "
+                                 "(a twin constructed in this process may be fooled by the same module-level state): %s"
+                                 % (pname, x, why), subject=now[x].brief(), reference=ref[x].brief())
         return None
 
     def _is_custom(self, world, pname, x):
@@ -790,6 +835,7 @@ class C04(Profile):
             "exception_outcomes": agg.get("outcomes", {}),
             "rejected_or_failed_mutations": agg.get("rejected", 0),
             "observable_comparisons": agg.get("checks", 0),
+            "comparisons_with_a_fresh_object_in_a_fresh_process": agg.get("clean_process_checks", 0),
             "twin_builds": agg.get("twin_builds", 0),
             "deepcopy_fallback": agg.get("deepcopy_fallback", 0),
             "run_classes": agg.get("run_class", {}),
@@ -1339,6 +1385,21 @@ class OpGen(object):
                 op["kw"]["timezone"] = {"tu": [0.0, round(dt * max(n - 1, 1), 6)]}
         return op
 
+    def _unusual(self, vals):
+        """Legal but unusual shapes of a settings list: unsorted, descending, with a duplicate, a single entry."""
+        rng = self.rng
+        c = rng.random()
+        v = list(vals)
+        if c < 0.35:
+            rng.shuffle(v)
+        elif c < 0.55:
+            v = sorted(v, reverse=True)
+        elif c < 0.8 and len(v) >= 2:
+            v[rng.randrange(1, len(v))] = v[0]
+        else:
+            v = v[:1]
+        return v
+
     # -- settings ----------------------------------------------------------------------------------
     def g_set(self, world, p, how=None):
         rng = self.rng
@@ -1410,6 +1471,9 @@ class OpGen(object):
                     if rng.random() < 0.6:
                         op["reuse"] = True
                         op["no_fault"] = True
+        if isinstance(op.get("v"), dict) and "nd" in op["v"] and how in ("attr:smooth_fa_freqs", "attr:smooth_fa_frequencies",
+                                                                          "gen_smooth") + tuple(SET_RESP) and rng.random() < 0.12:
+            op["v"] = nd(self._unusual(op["v"]["v"]))
         # a setting this object had before, assigned again bit for bit (after whatever happened in between)
         if isinstance(op.get("v"), dict) and "nd" in op["v"] and how in ("attr:smooth_fa_freqs", "attr:smooth_fa_frequencies",
                                                                           "gen_smooth") + tuple(SET_RESP):
